@@ -195,7 +195,7 @@ func (c *Ctx) liaBinop(op token.Token, w int, signed bool, x, y string, yT types
 	case token.OR:
 		r := c.uf("or", w, signed, x, y)
 		// bits that do not overlap add up: (x has its low k bits clear, 0 <= y < 2^k) => x|y == x+y
-		for _, k := range []int{8, 16, 24, 32} {
+		for _, k := range []int{4, 8, 16, 24, 32} {
 			if k >= w {
 				break
 			}
